@@ -22,6 +22,7 @@ import AGH.Lemmas.RuleListRefresh
 import AGH.Lemmas.RuleListParse
 import AGH.Lemmas.RuleListTrimFacts
 import AGH.Lemmas.RuleListLink
+import AGH.Lemmas.RuleListBurst
 namespace AGH.C15
 open AGH AGH.Bytes
 
@@ -216,19 +217,42 @@ theorem C15_insync_invariant (ls : List LState) (h : List HOp)
     | refresh rq ins => exact refreshStep_insync rq ls ins h0
     | setURL i rq f => exact setURLStep_insync ls i rq f h0
 
-/-- After ANY history of refreshes and set_url requests (from a state in which
-the engine agrees with the files, e.g. start-up), a refresh that fails for a list — or does not
-attempt it — leaves its file, count, checksum AND its rules in force exactly
-as they were, whatever happens to the other lists in the same call. -/
-theorem C15_failed_refresh_keeps_rules_in_force (ls0 : List LState) (h : List HOp)
-    (h0 : ∀ l ∈ ls0, InSync l) (rq : Req) (ins : List (Bool × Fetch))
-    (i : Nat) (l : LState) (due : Bool) (f : Fetch) (hl : (runHist h ls0)[i]? = some l)
+/-- With bursts of handler calls (each only REQUESTS the rebuild; the latest
+request replaces the one still waiting; `updatesLoop` runs later): at every
+moment the waiting task describes the list set as it is now, and whenever
+nothing is waiting — in particular right after the loop step — the engine's
+view equals the files of the lists enabled in the configuration accepted last. -/
+theorem C15_burst_invariant (s : BState) (ops : List BOp) (h : BInv s) : BInv (runB ops s) := by
+  induction ops generalizing s with
+  | nil => exact h
+  | cons op ops ih => exact ih _ (stepB_inv s op h)
+
+/-- After the loop step nothing is waiting, so the engine is in sync. -/
+theorem C15_burst_drained_in_sync (s : BState) (ops : List BOp) (h : BInv s) :
+    (runB (ops ++ [.loop]) s).pending = none ∧ ∀ l ∈ (runB (ops ++ [.loop]) s).ls, InSync l := by
+  have hi := C15_burst_invariant s (ops ++ [.loop]) h
+  have hp : (runB (ops ++ [.loop]) s).pending = none := by
+    simp only [runB, List.foldl_append, List.foldl_cons, List.foldl_nil, stepB, drain]
+    cases hp : (List.foldl stepB s ops).pending with
+    | none => simpa using hp
+    | some snap => rfl
+  exact ⟨hp, hi.2 hp⟩
+
+/-- In any state in which the engine agrees with the files — every state
+reached by a history of refreshes and set_url requests (`C15_insync_invariant`)
+and every drained state of a history with bursts (`C15_burst_invariant`) — a
+refresh that fails for a list, or does not attempt it, leaves its file, count,
+checksum AND its rules in force exactly as they were, whatever happens to the
+other lists in the same call. -/
+theorem C15_failed_refresh_keeps_rules_in_force (ls : List LState)
+    (h0 : ∀ l ∈ ls, InSync l) (rq : Req) (ins : List (Bool × Fetch))
+    (i : Nat) (l : LState) (due : Bool) (f : Fetch) (hl : ls[i]? = some l)
     (hi : ins[i]? = some (due, f)) (hf : attempted rq l due = false ∨ fetchFails f = true) :
-    ((refreshStep rq (runHist h ls0) ins)[i]?).map (·.inForce) = some l.inForce ∧
-    ((refreshStep rq (runHist h ls0) ins)[i]?).map (·.flt) = some l.flt := by
-  have hs : InSync l := C15_insync_invariant ls0 h h0 l (List.mem_of_getElem? hl)
+    ((refreshStep rq ls ins)[i]?).map (·.inForce) = some l.inForce ∧
+    ((refreshStep rq ls ins)[i]?).map (·.flt) = some l.flt := by
+  have hs : InSync l := h0 l (List.mem_of_getElem? hl)
   refine ⟨?_, C15_batch_failure_changes_nothing rq _ ins i l due f hl hi hf⟩
-  have hp := phase1_get rq (runHist h ls0) ins i l due f hl hi
+  have hp := phase1_get rq ls ins i l due f hl hi
   have hsame : (if attempted rq l due then { l with flt := refreshOne l.flt f } else l) = l := by
     rcases hf with hf | hf
     · simp [hf]
@@ -238,7 +262,7 @@ theorem C15_failed_refresh_keeps_rules_in_force (ls0 : List LState) (h : List HO
   rw [hsame] at hp
   unfold refreshStep
   simp only [List.getElem?_map]
-  cases hg : (phase1 rq (runHist h ls0) ins)[i]? with
+  cases hg : (phase1 rq ls ins)[i]? with
   | none => rw [hg] at hp; simp at hp
   | some r =>
     rw [hg] at hp
@@ -285,18 +309,19 @@ theorem C15_parse_meets_spec (src : Bytes) (complete : Bool) :
       obtain ⟨f1, f2, f3, f4⟩ := C15_normal_form_fixed_point src he
       simp [h4, h5, h1.symm, h2.symm, h3.symm, f1, f2, f3, f4]
 
-/-- **The model satisfies the refresh monitor in every reachable state, for
+/-- **The model satisfies the refresh monitor in every in-sync state (every
+reachable state, see `C15_insync_invariant` / `C15_burst_invariant`), for
 every list of every call**: not attempted, failed, succeeded with unchanged
 checksum, succeeded and rewritten.  `rew` is the model's "file was replaced". -/
-theorem C15_model_meets_spec (ls0 : List LState) (h : List HOp)
-    (h0 : ∀ l ∈ ls0, InSync l) (rq : Req) (ins : List (Bool × Fetch))
-    (i : Nat) (l l' : LState) (due : Bool) (f : Fetch) (hl : (runHist h ls0)[i]? = some l)
-    (hi : ins[i]? = some (due, f)) (hl' : (refreshStep rq (runHist h ls0) ins)[i]? = some l') :
+theorem C15_model_meets_spec (ls : List LState)
+    (h0 : ∀ l ∈ ls, InSync l) (rq : Req) (ins : List (Bool × Fetch))
+    (i : Nat) (l l' : LState) (due : Bool) (f : Fetch) (hl : ls[i]? = some l)
+    (hi : ins[i]? = some (due, f)) (hl' : (refreshStep rq ls ins)[i]? = some l') :
     refreshSpecWhy i (obsOf i l false) f (attempted rq l due)
       (obsOf i l' (attempted rq l due && (updateIntl l.flt.checksum f).isSome)) = none := by
   by_cases hf : attempted rq l due = false ∨ fetchFails f = true
   · -- nothing may change, and nothing does
-    obtain ⟨h2, h1⟩ := C15_failed_refresh_keeps_rules_in_force ls0 h h0 rq ins i l due f hl hi hf
+    obtain ⟨h2, h1⟩ := C15_failed_refresh_keeps_rules_in_force ls h0 rq ins i l due f hl hi hf
     rw [hl'] at h1 h2
     simp only [Option.map_some, Option.some.injEq] at h1 h2
     have hrew : (attempted rq l due && (updateIntl l.flt.checksum f).isSome) = false := by
